@@ -367,6 +367,64 @@ Proof.
   - now rewrite stored_length.
 Qed.
 
+(* a key that shares (bucket, 24-bit hash under the bucket's domain) with no inserted key is reported absent *)
+Theorem fmt_absent fm nb kvs file k :
+  fmt_ok fm -> entry_sized fm -> 0 < nb ->
+  build_fmt repaired fm nb kvs = BOk file ->
+  (N.of_nat (length file) < 256 ^ 6)%N -> (N.of_nat (length kvs) < 256 ^ 4)%N ->
+  (forall d k0 v0, mine attempts 0 (bucket_kvs nb (bucket_of nb k) (stored fm kvs)) = Some d -> In (k0, v0) kvs ->
+                   bucket_of nb k0 = bucket_of nb k -> h24 (N.of_nat d) k0 <> h24 (N.of_nat d) k) ->
+  lookup_at (f_evs fm) (length (f_hdr fm)) nb file k = NotFound.
+Proof.
+  intros Hf Hs Hnb Hb Hsize Hcount Hno. rewrite build_fmt_seal in Hb by auto.
+  destruct (existsb long_key kvs); [discriminate|]. unfold lift in Hb.
+  destruct (CI.seal _ _ _ _ _ _) as [f|] eqn:E; [|discriminate]. inversion Hb; subst f.
+  rewrite lookup_at_core by exact Hf.
+  eapply (absent hash bucket_of bucket_of_lt attempts (f_evs fm) (f_hdr fm) nb (stored fm kvs)); eauto.
+  - apply attempts_small.
+  - apply stored_sized; auto.
+  - now rewrite stored_length.
+  - intros d k0 w Hm Hin Hbk. apply stored_in_inv in Hin. destruct Hin as [v0 [Hin _]]. eapply Hno; eauto.
+Qed.
+
+(* ------------------------------------------------------------------ the pinned builder and an over-long key *)
+(* without the key-length check a key of exactly 65536 bytes is recorded with length 0: hashBucket reads the
+   EMPTY key back; the file is the one that inserting the empty key would give *)
+Lemma parse_spill_long svs K v : N.of_nat (length K) = 65536%N ->
+  parse_spill svs 1 (spill svs [(K, v)]) = Some [([], fit svs v)].
+Proof.
+  intros HK. unfold spill. cbn [map concat]. rewrite app_nil_r. unfold tuple. cbn [fst snd]. unfold keylen16. rewrite HK.
+  change (65536 mod 65536)%N with 0%N. cbn [parse_spill].
+  replace (length (le_enc 2 0 ++ fit svs v ++ K) <? 2 + svs) with false
+    by (symmetry; apply Nat.ltb_ge; rewrite !app_length, le_enc_length, fit_length; lia).
+  rewrite firstn_le_enc_app. change (N.to_nat (le_dec (le_enc 2 0))) with 0.
+  replace (skipn (2 + svs) (le_enc 2 0 ++ fit svs v ++ K)) with K.
+  2:{ rewrite skipn_plus, skipn_le_enc_app. rewrite skipn_app, fit_length, Nat.sub_diag. cbn [skipn].
+      rewrite skipn_all2 by (rewrite fit_length; lia). reflexivity. }
+  cbn [Nat.ltb Nat.leb skipn firstn].
+  replace (length K <? 0) with false by (symmetry; apply Nat.ltb_ge; lia).
+  cbn [le_enc app]. rewrite firstn_app, fit_length, Nat.sub_diag. cbn [firstn]. rewrite app_nil_r.
+  rewrite firstn_all2 by (rewrite fit_length; lia). reflexivity.
+Qed.
+
+Lemma build_fmt_variant fm nb kvs : keys_ok kvs -> build_fmt pinned fm nb kvs = build_fmt repaired fm nb kvs.
+Proof.
+  intros H. unfold build_fmt. rewrite (proj2 (long_key_false kvs) H), !andb_false_r. reflexivity.
+Qed.
+
+Theorem pinned_long_key_as_empty fm K v : N.of_nat (length K) = 65536%N ->
+  build_fmt pinned fm 1 [(K, v)] = build_fmt repaired fm 1 [([], v)].
+Proof.
+  intros HK. rewrite <- build_fmt_variant by (constructor; [unfold key_ok; cbn; lia|constructor]).
+  unfold build_fmt. cbn [v_check_keylen pinned andb]. cbn [seal_buckets].
+  assert (B : forall k w, bucket_kvs 1 0 [(k, w)] = [(k, w)]).
+  { intros k w. unfold CI.bucket_kvs. cbn [filter fst].
+    pose proof (bucket_of_lt 1 k ltac:(lia)) as Hb. replace (bucket_of 1 k) with 0 by lia. reflexivity. }
+  rewrite !B. cbn [length]. rewrite (parse_spill_long _ K v HK).
+  pose proof (parse_spill_roundtrip (f_svs fm) [([], v)] []) as R. rewrite app_nil_r in R. cbn [length] in R.
+  rewrite R by (constructor; [unfold key_ok; cbn; lia|constructor]). reflexivity.
+Qed.
+
 (* byte-identical files for every insertion order — and the same error when building fails *)
 Theorem fmt_order_independent fm nb kvs kvs' : fmt_ok fm -> Permutation kvs kvs' ->
   build_fmt repaired fm nb kvs = build_fmt repaired fm nb kvs'.
